@@ -380,6 +380,7 @@ func checkC16(c *core.Ctx, r *core.Report) {
 
 	// ---------------------------------------------------------------- (7)
 	checkRequestBufferOwnership(c, r)
+	checkResetEachIteration(c, r)
 }
 
 // checkRequestBufferOwnership (clause 7): fasthttp reuses the request body buffer for the next request, so a
@@ -564,4 +565,106 @@ func checkTimestampStore(fn *ssa.Function, s *ssa.Call, v ssa.Value, isExt map[s
 		return true, "a non-extracted value is stored only where the extracted / current timestamp is known to be zero"
 	}
 	return false, "a value that is not the extracted timestamp is stored where the event may already carry a time"
+}
+
+// checkResetEachIteration — clause RESETEACH.  A protocol handler that works through the series / events of one request
+// with one reusable object (a tags holder, a scratch event) defined before the loop and emptied with Reset inside it
+// must empty it for every element: either the Reset precedes every other use of the object in the loop body, or every
+// path around the loop passes it.  A Reset at the bottom of the body that a `continue` (a rejected element) jumps over
+// leaves the rejected element's tags in the object, and the next element is stored with them — another identity for
+// the same series than the one the other protocols give it.
+func checkResetEachIteration(c *core.Ctx, r *core.Report) {
+	scope := []string{"pkg/integrations", "pkg/otlp", "pkg/es/writer", "pkg/server/ingest", "pkg/influx"}
+	n := 0
+	for _, fn := range c.RepoFunctions() {
+		in := false
+		for _, p := range scope {
+			if strings.HasPrefix(core.FnPkgPath(fn), core.ModPath+"/"+p) {
+				in = true
+			}
+		}
+		if !in || fn.Blocks == nil {
+			continue
+		}
+		loops := core.Loops(fn)
+		if len(loops) == 0 {
+			continue
+		}
+		k := 0
+		for _, ci := range core.CallsIn(fn) {
+			call, ok := ci.(*ssa.Call)
+			if !ok || len(call.Call.Args) == 0 {
+				continue
+			}
+			f := core.CalleeFunc(call)
+			if f == nil || !(f.Name() == "Reset" || f.Name() == "reset" || f.Name() == "Clear") {
+				continue
+			}
+			sig, _ := f.Type().(*types.Signature)
+			if sig == nil || sig.Recv() == nil {
+				continue
+			}
+			obj := call.Call.Args[0]
+			l := core.InnermostLoop(loops, call.Block())
+			if l == nil {
+				continue
+			}
+			// the object is defined outside the loop
+			if oi, ok := obj.(ssa.Instruction); ok && l.Body[oi.Block()] {
+				continue
+			}
+			// other uses of the object inside the loop
+			var uses []ssa.Instruction
+			if refs := obj.Referrers(); refs != nil {
+				for _, u := range *refs {
+					if u == ssa.Instruction(call) || !l.Body[u.Block()] {
+						continue
+					}
+					if _, dbg := u.(*ssa.DebugRef); dbg {
+						continue
+					}
+					uses = append(uses, u)
+				}
+			}
+			if len(uses) == 0 {
+				continue
+			}
+			n++
+			k++
+			construct := fmt.Sprintf("%s:reused-object#%d-emptied-for-every-element", shortFn(fn), k)
+			before := true
+			for _, u := range uses {
+				if !core.InstrDominates(call, u) {
+					before = false
+				}
+			}
+			if before {
+				r.OK("PAIR", construct, c.Pos(call.Pos()), "emptied before it is used for the element")
+				continue
+			}
+			// every trip from a use around to the loop header passes the Reset
+			var skipped ssa.Instruction
+			for _, u := range uses {
+				core.WalkForward(fn, u, func(x ssa.Instruction) bool {
+					if x == ssa.Instruction(call) {
+						return false
+					}
+					if x.Block() == l.Header && x == l.Header.Instrs[0] && skipped == nil {
+						skipped = u
+						return false
+					}
+					if !l.Body[x.Block()] {
+						return false // left the loop
+					}
+					return true
+				})
+			}
+			if skipped != nil {
+				r.Violation("PAIR", construct, c.Pos(call.Pos()), "an object reused for every element of the request is filled for an element and the loop can go on to the next element without emptying it (the Reset is jumped over by a `continue`): the next element is stored with what the skipped one left behind — tags it never carried, another series identity")
+			} else {
+				r.OK("PAIR", construct, c.Pos(call.Pos()), "every trip around the loop passes the Reset")
+			}
+		}
+	}
+	r.Count("reused_objects_reset_inside_a_request_loop", n)
 }
